@@ -14,13 +14,14 @@
    asks a parse oracle [parse : string -> option (list re)] (Go's regexp/syntax, run by the harness
    on each part standalone: None = does not compile, Some alternatives = the top-level
    alternatives of the part) and joins the pieces with [textual_concat], which reproduces what
-   compiling the concatenated text does: top-level `|` of a part escapes the anchors. *)
+   compiling the concatenated text does: a top-level `|` of a part would escape the anchors, which
+   is why the code encloses a part containing `|` in (?: ) first (utils.GroupAlternatives). *)
 From Verif Require Import Lib.Base Lib.RegexM.
 From Coq Require Import String Ascii.
 Open Scope N_scope.
 
 (* ---------------------------------------------------------------------------------------------
-   String surgery (strings.Split, TrimPrefix, TrimSuffix, HasSuffix). *)
+   String surgery (strings.Split, TrimPrefix, TrimSuffix, HasSuffix, utils.HasEndAnchor). *)
 Open Scope string_scope.
 
 Fixpoint split_slash (s : string) : list string :=
@@ -54,7 +55,34 @@ Fixpoint trim_suffix_dollar (s : string) : string :=
   | String c s' => String c (trim_suffix_dollar s')
   end.
 
-Definition strip_anchors (s : string) : string := trim_suffix_dollar (trim_prefix_caret s).
+(* utils.HasEndAnchor: the text ends with a `$` that is an anchor, i.e. one that is not escaped (an
+   even number of backslashes precedes it) *)
+Fixpoint count_backslashes (l : list ascii) : nat :=
+  match l with
+  | c :: l' => if Ascii.eqb c "\" then S (count_backslashes l') else O
+  | [] => O
+  end.
+Definition has_end_anchor (s : string) : bool :=
+  has_suffix_dollar s &&
+  match rev (list_ascii_of_string s) with
+  | _ :: rest => Nat.even (count_backslashes rest)
+  | [] => false
+  end.
+(* utils.TrimEndAnchor *)
+Definition trim_end_anchor (s : string) : string :=
+  if has_end_anchor s then trim_suffix_dollar s else s.
+
+Definition strip_anchors (s : string) : string := trim_end_anchor (trim_prefix_caret s).
+
+Fixpoint has_char (c : ascii) (s : string) : bool :=
+  match s with
+  | EmptyString => false
+  | String x s' => Ascii.eqb x c || has_char c s'
+  end.
+
+(* utils.GroupAlternatives on the text, and what it does to the part's top-level alternatives *)
+Definition has_bar (s : string) : bool := has_char "|"%char s.
+Definition group_text (s : string) : string := if has_bar s then "(?:" ++ s ++ ")" else s.
 
 Definition slash : re := Chr 47.
 Definition any_text : string := ".*".
@@ -120,6 +148,9 @@ Section Patterns.
     p_re : re           (* what that text means *)
   }.
 
+  Definition group (text : string) (alternatives : list re) : list re :=
+    if has_bar text then [alts alternatives] else alternatives.
+
   Definition first_part (path : string) : string :=
     match split_slash path with p0 :: _ => p0 | [] => "" end.
 
@@ -144,15 +175,14 @@ Section Patterns.
         match parse p0, parse p1 with
         | Some ws, Some accs =>
             Some {| p_key := p0;
-                    p_text := "^" ++ p0 ++ "/" ++ p1 ++ "$";
-                    p_re := textual_concat [[Bol]; ws; [slash]; accs; [Eol]] |}
+                    p_text := "^" ++ group_text p0 ++ "/" ++ group_text p1 ++ "$";
+                    p_re := textual_concat [[Bol]; group p0 ws; [slash]; group p1 accs; [Eol]] |}
         | _, _ => None
         end
     end.
 
   (* wallet accountPathsToVerificationRegexes, one path: the wallet part is used as it is, an
-     empty account part stays empty, only a leading ^ of the account part is removed and a `$`
-     the user wrote at its end is kept instead of adding one *)
+     empty account part stays empty, the anchors of the account part are removed *)
   Definition wallet_parts (path : string) : option (string * string) :=
     match split_slash path with
     | [] => None
@@ -160,7 +190,7 @@ Section Patterns.
         if String.eqb p0 "" then None
         else
           let p1 := match rest with [] => any_text | x :: _ => x end in
-          Some (p0, trim_prefix_caret p1)
+          Some (p0, strip_anchors p1)
     end.
 
   Definition wallet_pattern (path : string) : option pattern :=
@@ -169,14 +199,9 @@ Section Patterns.
     | Some (p0, p1) =>
         match parse p0, parse p1 with
         | Some ws, Some accs =>
-            if has_suffix_dollar p1 then
-              Some {| p_key := p0;
-                      p_text := "^" ++ p0 ++ "/" ++ p1;
-                      p_re := textual_concat [[Bol]; ws; [slash]; accs] |}
-            else
-              Some {| p_key := p0;
-                      p_text := "^" ++ p0 ++ "/" ++ p1 ++ "$";
-                      p_re := textual_concat [[Bol]; ws; [slash]; accs; [Eol]] |}
+            Some {| p_key := p0;
+                    p_text := "^" ++ group_text p0 ++ "/" ++ group_text p1 ++ "$";
+                    p_re := textual_concat [[Bol]; group p0 ws; [slash]; group p1 accs; [Eol]] |}
         | _, _ => None
         end
     end.
